@@ -188,9 +188,19 @@ pub fn run_history_first(cfg: &TeCfg, hist: &[TOp], st: &mut Stats, quiet: bool,
             TOp::BulkLoad { docs } => docs.iter().filter(|(id, _, _)| !model.docs.contains_key(id)).count(),
             _ => 0,
         };
+        // an overwrite takes a fresh slot before the old one is tombstoned: it needs one slot
+        // beyond the live documents (of the op's own new ids too: the rows are applied in order)
+        let has_overwrite = match op {
+            TOp::Ins { id, .. } => model.docs.contains_key(id),
+            TOp::BulkLoad { docs } => docs.iter().any(|(id, _, _)| model.docs.contains_key(id)),
+            _ => false,
+        };
         let r = apply(&te, &mut model, op, Some(&rt));
         if let Err(e) = &r {
-            if cfg.hnsw_capacity <= 4 && matches!(op, TOp::Ins { .. } | TOp::BulkLoad { .. }) && live_before + new_ids.max(1) > cfg.hnsw_capacity && (e.contains("full") || e.contains("bulk_load loaded=")) {
+            // (a planted hot-only orphan may have been drained into the cold tier — the C04/C05
+            // known finding — and then occupies a slot the model does not know about)
+            let room_needed = live_before + new_ids + has_overwrite as usize;
+            if cfg.hnsw_capacity <= 4 && matches!(op, TOp::Ins { .. } | TOp::BulkLoad { .. }) && (room_needed > cfg.hnsw_capacity || poked_hot) && (e.contains("full") || e.contains("bulk_load loaded=")) {
                 st.refused_full += 1;
                 break;
             }
